@@ -59,6 +59,22 @@ def emitting_fns(db, prim):
 
 
 def run(ctx):
+    index_capture(ctx)
+    scope_pairing(ctx)
+    alias_reset(ctx)
+    emission_order(ctx)
+    dependency_edges(ctx)
+    # cross references
+    import c07
+    c07.check_memo(ctx_alias(ctx, "R01.4"))
+    c07.check_use_site(ctx_alias(ctx, "R01.4"))
+    import c06
+    c06.check_edge_selection(ctx_alias(ctx, "R01.7"), [f for f in ctx.db.fns.values() if f.crate == "wac_graph"])
+    validator_features(ctx)
+
+
+def index_capture(ctx):
+    """R01.1: every read of an index-space counter is immediately followed (on every path) by the emission it numbers."""
     db, prov = ctx.db, ctx.prov
     prim = emit_primitives(db)
     ctx.ob("R01.1", "anchor", len(prim) >= 5, "emission primitives: %s" % sorted(x.split("::")[-1] for x in prim), nontrivial=False)
@@ -101,6 +117,18 @@ def run(ctx):
                     if cp.startswith(ENC + "State::used_type_index"):
                         bad = tt
                         break
+                    # an emitting function run through a closure handed to this call (`opt.map(|t| self.value_type(state, t))`)
+                    via = None
+                    for fa in tt.fnargs:
+                        g = db.fns.get(strip_generics(fa))
+                        for h in (db.with_closures(g) if g is not None else []):
+                            for c in h.calls():
+                                hp = c.path or ""
+                                if hp in emit or hp in prim or is_foreign_emit(hp):
+                                    via = c
+                    if via is not None:
+                        bad = via
+                        break
                 if tt.k == "return":
                     first.add(("<return>", b))
                     continue
@@ -132,18 +160,6 @@ def run(ctx):
                             why = "the %s counter numbers an import of kind %s (wrong index space)" % (space, sorted(variants))
             ctx.ob("R01.1", key, ok, why, site=site)
     ctx.floor("R01.1", 20)
-
-    scope_pairing(ctx)
-    alias_reset(ctx)
-    emission_order(ctx)
-    dependency_edges(ctx)
-    # cross references
-    import c07
-    c07.check_memo(ctx_alias(ctx, "R01.4"))
-    c07.check_use_site(ctx_alias(ctx, "R01.4"))
-    import c06
-    c06.check_edge_selection(ctx_alias(ctx, "R01.7"), [f for f in db.fns.values() if f.crate == "wac_graph"])
-    validator_features(ctx)
 
 
 def validator_features(ctx):
